@@ -237,6 +237,23 @@ func (s *Session) ModuleState(moduleName string) (any, bool) {
 	return state, ok
 }
 
+// ModuleStateOrSet returns the state of the given module. When the module has
+// no state yet, it is set to the value returned by newState first. Getting and
+// setting are done atomically, so that participants joining at the same time
+// end up sharing one state.
+func (s *Session) ModuleStateOrSet(moduleName string, newState func() any) any {
+	s.moduleMutex.Lock()
+	defer s.moduleMutex.Unlock()
+
+	if state, ok := s.moduleStates[moduleName]; ok {
+		return state
+	}
+
+	state := newState()
+	s.moduleStates[moduleName] = state
+	return state
+}
+
 func (s *Session) HandleFrame(h func()) (cancel func()) {
 	s.frameMutex.Lock()
 	defer s.frameMutex.Unlock()
